@@ -248,7 +248,15 @@ func (s *OS[T, P]) RunOps(start string, ops [][]string, preds Pred) (key, expect
 		// every step: Get-all equals the model
 		got, gerr := s.ReadAll(o)
 		if gerr != nil {
+			if preds&(PredSetClosure|PredWellFormed) == 0 {
+				return "", "", "" // an ill-formed object is C07's / C09's finding
+			}
 			return "Set(" + abv + ")/ill-formed-after", "well-formed object", fmt.Sprintf("step %d after Set(%q,%q): %v", step, abv, val, gerr)
+		}
+		if preds&PredSetClosure == 0 {
+			// the other predicates speak about whatever object was reached: follow what it reads back as
+			copy(model, got)
+			continue
 		}
 		for i := range got {
 			if got[i] != model[i] {
@@ -262,7 +270,7 @@ func (s *OS[T, P]) RunOps(start string, ops [][]string, preds Pred) (key, expect
 	if err != nil {
 		return "build-failed", "canonical build succeeds", err.Error()
 	}
-	if canon != o {
+	if canon != o && preds&PredSetClosure != 0 {
 		return "equal-assignments-not-==", "objects holding the same metric values are ==", fmt.Sprintf("history gives %v, canonical build gives %v", s.I.Describe(o), s.I.Describe(canon))
 	}
 	if k, e, ob := s.stateInvariants(model, o, preds); k != "" {
@@ -473,13 +481,28 @@ func (s *OS[T, P]) Sweep(dims []Dim, bg spec.Assignment, preds Pred, workers int
 				val, err := P(&o).Get(m.Abv)
 				trans++
 				if err != nil || val != m.Values[a[mi]] {
-					s.report(a, nil, preds, "table-verify", fmt.Sprintf("Get(%s)=%q err=%v", m.Abv, val, err))
 					bad = true
 					break
 				}
 			}
 			if bad {
-				continue
+				// Set did not produce the state of the model. That is C07's finding (closure sweeps). The other
+				// predicates speak about whatever object was reached: they continue with the assignment the object
+				// actually reads back as; an object that does not read back at all is ill formed (C09).
+				if preds&PredSetClosure != 0 {
+					s.report(a, nil, preds, "table-verify", "the object built by Set does not read back as the values set")
+					continue
+				}
+				actual, rerr := s.ReadAll(o)
+				if rerr != nil {
+					if preds&PredWellFormed != 0 {
+						s.report(a, nil, preds, "ill-formed", rerr.Error())
+					}
+					continue
+				}
+				for i := range a {
+					a[i] = actual[i] // (restored from dg at the next iteration)
+				}
 			}
 			k, _, ob, vec := s.stateInvariantsV(a, o, preds)
 			if k != "" {
